@@ -1,6 +1,6 @@
 (* C09: the speaker's announcements are a function of the current cluster state. *)
 From Coq Require Import List NArith Bool Lia.
-From Verif Require Import Model.Speaker Proofs.NetP Proofs.ElectP Proofs.BgpAdsP.
+From Verif Require Import Model.Speaker Proofs.NetP Proofs.ElectP Proofs.BgpAdsP Proofs.BgpAdsElig.
 Local Open Scope N_scope.
 
 Lemma ip_eq_dec (a b : ip) : {a = b} + {a <> b}.
@@ -396,7 +396,7 @@ Definition nf_name (st : sstate) (name : N) (os : option svc) : Prop :=
   | Some (s, ips, p) =>
       s_annb st name = should_of PBgp st p s ips /\ s_annl st name = should_of PL2 st p s ips /\
       (should_of PBgp st p s ips = true -> target PBgp name ips p st) /\
-      (should_of PL2 st p s ips = true -> target PL2 name ips p st)
+      (should_of PL2 st p s ips = true -> match_ifs (ip_adv_for me (pl_l2 p)) (en_ifs ev) = true -> target PL2 name ips p st)
   end.
 
 Lemma should_of_frame name a b P p s ips : frame name a b -> should_of P b p s ips = should_of P a p s ips.
@@ -414,10 +414,10 @@ Qed.
 Definition cfg_good (st : sstate) : Prop := forall c, s_cfg st = Some c -> cfg_ifs_ok ev c = true.
 
 Lemma set_balancer_spec name os st :
-  Bk st -> cfg_good st -> (forall s, os = Some s -> svc_ok s = true) ->
+  Bk st -> (forall s, os = Some s -> svc_ok s = true) ->
   Bk (set_balancer ev name os st) /\ frame name st (set_balancer ev name os st) /\ nf_name (set_balancer ev name os st) name os.
 Proof.
-  intros B Hgood Hsvc.
+  intros B Hsvc.
   assert (Hdel : forall os', plan (s_cfg st) os' = None ->
             Bk (del_all name st) /\ frame name st (del_all name st) /\ nf_name (del_all name st) name os').
   { intros os' Hp. destruct (del_all_spec name st B) as [B1 [F1 [A1 [A2 _]]]]. split; [exact B1|]. split; [exact F1|].
@@ -442,17 +442,11 @@ Proof.
     - split; [exact B|]. split; [apply frame_refl|]. intros old' Ho'. congruence. }
   destruct H1 as [B1 [F1 P1]].
   assert (Hc1 : s_cfg st1 = Some cfg) by (destruct F1 as [F1 _]; congruence).
-  destruct (handle_spec PBgp name ips s p st1 B1 P1 ltac:(discriminate) ltac:(congruence) ltac:(discriminate))
+  destruct (handle_spec PBgp name ips s p st1 B1 P1 ltac:(discriminate) ltac:(congruence))
     as [B2 [F2 [P2 [A2 [T2 _]]]]].
   set (st2 := handle ev PBgp name ips s p st1) in *.
   assert (Hc2 : s_cfg st2 = Some cfg) by (destruct F2 as [F2 _]; congruence).
-  assert (Hifs : PL2 = PL2 -> should_of PL2 st2 p s ips = true -> match_ifs (ip_adv_for me (pl_l2 p)) (en_ifs ev) = true).
-  { intros _ Hs. apply l2_should_selects in Hs.
-    assert (Hin : In p (cf_pools cfg)).
-    { unfold pool_for, ips in Ep. apply find_some in Ep. tauto. }
-    pose proof (Hgood cfg Ec) as Hg. unfold cfg_ifs_ok in Hg. rewrite forallb_forall in Hg. specialize (Hg p Hin).
-    unfold pool_ifs_ok in Hg. fold me in Hg. rewrite Hs in Hg. exact Hg. }
-  destruct (handle_spec PL2 name ips s p st2 B2 P2 ltac:(discriminate) ltac:(congruence) Hifs)
+  destruct (handle_spec PL2 name ips s p st2 B2 P2 ltac:(discriminate) ltac:(congruence))
     as [B3 [F3 [P3 [A3 [T3 [O3 O3']]]]]].
   set (st3 := handle ev PL2 name ips s p st2) in *.
   pose proof (frame_trans _ _ _ _ F1 F2) as F12. pose proof (frame_trans _ _ _ _ F12 F3) as F13.
@@ -460,8 +454,8 @@ Proof.
   unfold nf_name. destruct F13 as [Fc _]. rewrite Fc, Ec. cbn [plan]. rewrite Elb, Ei. unfold ips at 1. cbv beta iota. fold ips. rewrite Ep.
   rewrite (should_of_frame name st2 st3 PBgp p s ips F3), (should_of_frame name st2 st3 PL2 p s ips F3).
   sp. split; [rewrite O3, A2; symmetry; apply (should_of_frame name st1 st2 PBgp p s ips F2)|].
-  split; [exact A3|]. split; [|exact T3].
-  intros Hs. unfold target. rewrite O3'. apply T2. rewrite <- (should_of_frame name st1 st2 PBgp p s ips F2). exact Hs.
+  split; [exact A3|]. split; [|intros Hs Hm; apply T3; [exact Hs|intros _; exact Hm]].
+  intros Hs. unfold target. rewrite O3'. apply T2; [|discriminate]. rewrite <- (should_of_frame name st1 st2 PBgp p s ips F2). exact Hs.
 Qed.
 
 (* ---------------------------------------------------------------- the cluster list *)
@@ -542,16 +536,16 @@ Lemma cfg_good_frame names a b : frameS names a b -> cfg_good a -> cfg_good b.
 Proof. intros [H1 _] G c Hc. apply G. congruence. Qed.
 
 Lemma resync_spec K : forall st,
-  Bk st -> cfg_good st -> Kok K ->
+  Bk st -> Kok K ->
   Bk (resync ev K st) /\ frameS (map fst K) st (resync ev K st) /\
   (knodup K -> forall name s, In (name, s) K -> nf_name (resync ev K st) name (Some s)).
 Proof.
-  induction K as [|[n0 s0] K IH]; intros st B G Hok; cbn [resync fold_left map fst snd].
+  induction K as [|[n0 s0] K IH]; intros st B Hok; cbn [resync fold_left map fst snd].
   - split; [exact B|]. split; [apply frameS_refl|]. intros _ name s [].
-  - destruct (set_balancer_spec n0 (Some s0) st B G) as [B1 [F1 N1]].
+  - destruct (set_balancer_spec n0 (Some s0) st B) as [B1 [F1 N1]].
     { intros s [= <-]. apply (Hok n0 s0). left. reflexivity. }
     set (st1 := set_balancer ev n0 (Some s0) st) in *. apply frame_frameS in F1.
-    destruct (IH st1 B1 (cfg_good_frame _ _ _ F1 G)) as [B2 [F2 N2]].
+    destruct (IH st1 B1) as [B2 [F2 N2]].
     { intros n s H. apply (Hok n s). right. exact H. }
     fold (resync ev K st1). split; [exact B2|]. split; [apply (frameS_trans [n0] (map fst K) _ _ _ F1 F2)|].
     intros Hnd name s [[= -> ->]|Hin].
@@ -560,11 +554,11 @@ Proof.
 Qed.
 
 Lemma resync_NF K st :
-  Bk st -> cfg_good st -> Kok K -> knodup K -> Dinv K st ->
+  Bk st -> Kok K -> knodup K -> Dinv K st ->
   Bk (resync ev K st) /\ NF K (resync ev K st) /\ Dinv K (resync ev K st) /\
   s_cfg (resync ev K st) = s_cfg st /\ s_nodes (resync ev K st) = s_nodes st /\ s_spk (resync ev K st) = s_spk st.
 Proof.
-  intros B G Hok Hnd D. destruct (resync_spec K st B G Hok) as [B1 [F1 N1]].
+  intros B Hok Hnd D. destruct (resync_spec K st B Hok) as [B1 [F1 N1]].
   assert (D1 : Dinv K (resync ev K st)).
   { intros name Hn. pose proof Hn as Hn'. apply klookup_none in Hn'. destruct F1 as [_ [_ [_ F4]]].
     destruct (F4 name Hn') as [E1 [E2 _]]. rewrite E1, E2. apply D. exact Hn. }
@@ -675,7 +669,7 @@ Qed.
 
 (* ---------------------------------------------------------------- the invariant of a run *)
 Record Inv (K : cluster) (st : sstate) (stale : bool) : Prop := {
-  v_bk : Bk st; v_good : cfg_good st; v_nd : knodup K; v_ok : Kok K; v_d : Dinv K st;
+  v_bk : Bk st; v_nd : knodup K; v_ok : Kok K; v_d : Dinv K st;
   v_nodes : NoDup (map nd_id (s_nodes st));
   v_nf : stale = false -> NF K st
 }.
@@ -702,12 +696,11 @@ Proof.
 Qed.
 
 Lemma Inv_resync K st : 
-  Bk st -> cfg_good st -> knodup K -> Kok K -> Dinv K st -> NoDup (map nd_id (s_nodes st)) ->
+  Bk st -> knodup K -> Kok K -> Dinv K st -> NoDup (map nd_id (s_nodes st)) ->
   Inv K (resync ev K st) false.
 Proof.
-  intros B G Hnd Hok D Hn. destruct (resync_NF K st B G Hok Hnd D) as [B1 [N1 [D1 [E1 [E2 E3]]]]].
+  intros B Hnd Hok D Hn. destruct (resync_NF K st B Hok Hnd D) as [B1 [N1 [D1 [E1 [E2 E3]]]]].
   constructor; auto.
-  - intros c Hc. apply G. congruence.
   - rewrite E2. exact Hn.
 Qed.
 
@@ -715,15 +708,14 @@ Lemma Dinv_pn K a b : pn_same a b -> Dinv K a -> Dinv K b.
 Proof. intros Hp D name Hk. destruct (Hp name) as [E1 [E2 _]]. rewrite E1, E2. apply D. exact Hk. Qed.
 
 Lemma Inv_step K st stale e :
-  event_ok ev e = true -> Inv K st stale ->
+  esvc_ok e = true -> Inv K st stale ->
   Inv (fst (sstep ev (K, st) e)) (snd (sstep ev (K, st) e))
       (if requests_resync ev st e then false else stale || first_node_event st K e).
 Proof.
-  intros He [B G Hnd Hok D Hn NFh]. destruct e as [name [s|]|c|n|l|]; cbn [sstep requests_resync first_node_event event_ok fst snd] in *.
+  intros He [B Hnd Hok D Hn NFh]. destruct e as [name [s|]|c|n|l|]; cbn [sstep requests_resync first_node_event esvc_ok fst snd] in *.
   - (* service add / update *)
-    rewrite orb_false_r. destruct (set_balancer_spec name (Some s) st B G) as [B1 [F1 N1]]; [intros s' [= <-]; exact He|].
+    rewrite orb_false_r. destruct (set_balancer_spec name (Some s) st B) as [B1 [F1 N1]]; [intros s' [= <-]; exact He|].
     apply frame_frameS in F1. constructor; auto.
-    + eapply cfg_good_frame; eassumption.
     + apply knodup_kput. exact Hnd.
     + intros k s' Hin. apply in_kput in Hin. destruct Hin as [[Hin _]|[= -> ->]]; [apply (Hok k s' Hin)|exact He].
     + intros k Hk. rewrite klookup_kput in Hk. destruct (N.eqb_spec k name) as [Hkn|Hne]; [discriminate|].
@@ -732,9 +724,8 @@ Proof.
     + intros Hs k. rewrite klookup_kput. destruct (N.eqb_spec k name) as [Hkn|Hne]; [rewrite Hkn; exact N1|].
       apply (nf_frameS [name] st); [exact F1|intros [<-|[]]; congruence|apply NFh; exact Hs].
   - (* service delete *)
-    rewrite orb_false_r. destruct (set_balancer_spec name None st B G) as [B1 [F1 N1]]; [discriminate|].
+    rewrite orb_false_r. destruct (set_balancer_spec name None st B) as [B1 [F1 N1]]; [discriminate|].
     apply frame_frameS in F1. constructor; auto.
-    + eapply cfg_good_frame; eassumption.
     + apply knodup_kdel. exact Hnd.
     + intros k s' Hin. apply in_kdel in Hin. apply (Hok k s'). tauto.
     + intros k Hk. rewrite klookup_kdel in Hk. destruct (N.eqb_spec k name) as [Hkn|Hne].
@@ -747,7 +738,6 @@ Proof.
     destruct (set_config_spec c st B) as [S1 S2]. destruct (set_config ev c st) as [st' ok] eqn:Ec. cbn [fst snd] in *.
     destruct ok.
     + destruct (S2 eq_refl) as [B1 [P1 [C1 [C2 [C3 _]]]]]. apply Inv_resync; auto.
-      * intros c' Hc'. rewrite C1 in Hc'. injection Hc' as <-. exact He.
       * eapply Dinv_pn; eassumption.
       * rewrite C2. exact Hn.
     + rewrite (S1 eq_refl). rewrite orb_false_r. constructor; auto.
@@ -755,7 +745,6 @@ Proof.
     destruct (set_node_spec n st B) as [B1 [P1 [C1 [C2 [C3 _]]]]].
     unfold set_node in *. cbn [fst snd] in *.
     set (st' := set_nodes (put_node n (s_nodes st)) (set_bgp (bset_node_gen true (en_me ev) (nd_id n) (nd_labels n) (s_bgp st)) st)) in *.
-    assert (G1 : cfg_good st') by (intros c' Hc'; apply G; congruence).
     assert (N1 : NoDup (map nd_id (s_nodes st'))) by (rewrite C2; apply put_node_ids; exact Hn).
     assert (D1 : Dinv K st') by (eapply Dinv_pn; eassumption).
     destruct (find_node (nd_id n) (s_nodes st)) as [old|] eqn:Ef.
@@ -786,7 +775,6 @@ Lemma Inv_init spk : Inv [] (sinit spk) false.
 Proof.
   constructor.
   - apply sinit_Bk.
-  - intros c Hc. discriminate.
   - constructor.
   - intros n s [].
   - intros name _. split; reflexivity.
@@ -795,7 +783,7 @@ Proof.
 Qed.
 
 Lemma Inv_run h : forall ws stale,
-  forallb (event_ok ev) h = true -> Inv (fst ws) (snd ws) stale ->
+  forallb esvc_ok h = true -> Inv (fst ws) (snd ws) stale ->
   Inv (fst (fold_left (sstep ev) h ws)) (snd (fold_left (sstep ev) h ws)) (stale_after ev ws stale h).
 Proof.
   induction h as [|e h IH]; intros [K st] stale Hok I; cbn [fold_left stale_after]; [exact I|].
@@ -838,7 +826,7 @@ Lemma fresh_spec K st stale :
   Bk (fresh ev st K) /\ NF K (fresh ev st K) /\
   s_cfg (fresh ev st K) = s_cfg st /\ s_nodes (fresh ev st K) = s_nodes st /\ s_spk (fresh ev st K) = s_spk st.
 Proof.
-  intros [B G Hnd Hok D Hn _]. unfold fresh.
+  intros [B Hnd Hok D Hn _]. unfold fresh.
   destruct (fold_set_node (s_nodes st) (sinit (s_spk st)) (sinit_Bk _)) as [B1 [P1 [C1 [C3 [C4 C2]]]]]. cbv zeta in *.
   set (st1 := fold_left (fun a n => fst (set_node ev n a)) (s_nodes st) (sinit (s_spk st))) in *.
   assert (C2' : s_nodes st1 = s_nodes st).
@@ -852,11 +840,9 @@ Proof.
     destruct (S2 Hacc) as [B2 [P2 [E1 [E2 [E3 _]]]]].
     set (st2 := fst (set_config ev c st1)) in *.
     destruct (resync_NF K st2 B2) as [B3 [N3 [_ [F1 [F2 F3]]]]]; auto.
-    + intros c' Hc'. rewrite E1 in Hc'. injection Hc' as <-. apply G. exact Ec.
     + intros k _. destruct (P2 k) as [A1 [A2 _]]. rewrite A1, A2. apply Hoff.
     + split; [exact B3|]. split; [exact N3|]. rewrite F1, F2, F3, E1, E2, E3, C2', C3. auto.
   - destruct (resync_NF K st1 B1) as [B3 [N3 [_ [F1 [F2 F3]]]]]; auto.
-    + intros c' Hc'. rewrite C1 in Hc'. discriminate.
     + intros k _. apply Hoff.
     + split; [exact B3|]. split; [exact N3|]. rewrite F1, F2, F3, C1, C2', C3. auto.
 Qed.
@@ -907,23 +893,37 @@ Proof.
   - exact I.
 Qed.
 
+Lemma match_of_good st os s ips p :
+  cfg_good st -> plan (s_cfg st) os = Some (s, ips, p) -> should_of PL2 st p s ips = true ->
+  match_ifs (ip_adv_for me (pl_l2 p)) (en_ifs ev) = true.
+Proof.
+  intros G Hp Hs. unfold plan in Hp. destruct os as [s0|]; [|discriminate]. destruct (sv_lb s0); [|discriminate].
+  destruct (s_cfg st) as [cfg|] eqn:Ec; [|discriminate]. destruct (sv_ips s0) as [[|x r]|]; try discriminate.
+  destruct (pool_for cfg (x :: r)) as [p0|] eqn:Ep; [|discriminate]. injection Hp as <- <- <-.
+  assert (Hin : In p0 (cf_pools cfg)) by (unfold pool_for in Ep; apply find_some in Ep; tauto).
+  pose proof (G cfg Ec) as Hg. unfold cfg_ifs_ok in Hg. rewrite forallb_forall in Hg. specialize (Hg p0 Hin).
+  unfold should_of in Hs. apply l2_should_selects in Hs. unfold pool_ifs_ok in Hg. fold me in Hg. rewrite Hs in Hg. exact Hg.
+Qed.
+
 Lemma equiv_of_NF K a b :
-  Bk a -> Bk b -> NF K a -> NF K b ->
+  Bk a -> Bk b -> NF K a -> NF K b -> cfg_good a ->
   s_cfg a = s_cfg b -> s_nodes a = s_nodes b -> s_spk a = s_spk b ->
   announced_equiv a b.
 Proof.
-  intros Ba Bb Na Nb Hc Hn Hs.
+  intros Ba Bb Na Nb Ga Hc Hn Hs.
   assert (Hsh : forall P p s ips, should_of P a p s ips = should_of P b p s ips).
   { intros. unfold should_of. rewrite Hn, Hs. reflexivity. }
   assert (Hper : forall name, bs_ads (s_bgp a) name = bs_ads (s_bgp b) name /\ opt_set_equiv (s_l2 a name) (s_l2 b name)).
   { intros name. specialize (Na name). specialize (Nb name). unfold nf_name in Na, Nb. rewrite <- Hc in Nb.
+    pose proof (match_of_good a (klookup K name)) as Hm.
     destruct (plan (s_cfg a) (klookup K name)) as [[[s ips] p]|].
     - rewrite <- !Hsh in Nb. destruct Na as [A1 [A2 [A3 A4]]]. destruct Nb as [B1 [B2 [B3 B4]]]. split.
       + destruct (should_of PBgp a p s ips).
         * specialize (A3 eq_refl). specialize (B3 eq_refl). unfold target in *. congruence.
         * rewrite (k_b _ Ba name A1), (k_b _ Bb name B1). reflexivity.
-      + destruct (should_of PL2 a p s ips).
-        * destruct (A4 eq_refl) as [e1 [E1 H1]]. destruct (B4 eq_refl) as [e2 [E2 H2]]. rewrite E1, E2. cbn.
+      + destruct (should_of PL2 a p s ips) eqn:Es2.
+        * specialize (Hm s ips p Ga eq_refl Es2).
+          destruct (A4 eq_refl Hm) as [e1 [E1 H1]]. destruct (B4 eq_refl Hm) as [e2 [E2 H2]]. rewrite E1, E2. cbn.
           intros x. rewrite H1, H2. tauto.
         * rewrite (k_l _ Ba name A2), (k_l _ Bb name B2). exact I.
     - destruct Na as [A1 A2]. destruct Nb as [B1 B2]. split.
@@ -936,41 +936,49 @@ Qed.
 
 (* ---------------------------------------------------------------- the theorems *)
 Lemma resync_normal_form K st stale :
-  Inv K st stale ->
+  Inv K st stale -> cfg_good st ->
   announced_equiv (resync ev K st) (fresh ev st K).
 Proof.
-  intros V. pose proof V as [B G Hnd Hok D Hn _].
-  destruct (resync_NF K st B G Hok Hnd D) as [B1 [N1 [_ [E1 [E2 E3]]]]].
+  intros V G. pose proof V as [B Hnd Hok D Hn _].
+  destruct (resync_NF K st B Hok Hnd D) as [B1 [N1 [_ [E1 [E2 E3]]]]].
   destruct (fresh_spec K st stale V) as [B2 [N2 [F1 [F2 F3]]]].
-  apply (equiv_of_NF K); auto; congruence.
+  apply (equiv_of_NF K); auto; try congruence. intros c Hc. apply G. congruence.
 Qed.
 
-Lemma history_independent_partial spk h :
-  forallb (event_ok ev) h = true ->
+Lemma final_cfg_good st : final_cfg_ok ev st = true -> cfg_good st.
+Proof. unfold final_cfg_ok. intros H c Hc. rewrite Hc in H. exact H. Qed.
+
+(* every history: only the Services' addresses must be duplicate-free, only the FINAL configuration
+   must be free of F9, and no first node event may be left without a re-sync (F25) *)
+Lemma history_independent spk h :
+  forallb esvc_ok h = true ->
+  final_cfg_ok ev (snd (srun ev spk h)) = true ->
   stale_after ev ([], sinit spk) false h = false ->
   announced_equiv (snd (srun ev spk h)) (fresh ev (snd (srun ev spk h)) (fst (srun ev spk h))).
 Proof.
-  intros Hok Hst. pose proof (Inv_run h ([], sinit spk) false Hok (Inv_init spk)) as V. rewrite Hst in V.
+  intros Hok Hf Hst. pose proof (Inv_run h ([], sinit spk) false Hok (Inv_init spk)) as V. rewrite Hst in V.
   fold (srun ev spk h) in V. destruct (fresh_spec _ _ _ V) as [B2 [N2 [F1 [F2 F3]]]].
   apply (equiv_of_NF (fst (srun ev spk h))); auto.
   - apply (v_bk _ _ _ V).
   - apply (v_nf _ _ _ V). reflexivity.
+  - apply final_cfg_good. exact Hf.
 Qed.
 
 (* any reachable state: a full re-sync brings the speaker to the fresh speaker's announcements *)
 Lemma resync_normal_form_run spk h :
-  forallb (event_ok ev) h = true ->
+  forallb esvc_ok h = true ->
+  final_cfg_ok ev (snd (srun ev spk h)) = true ->
   let ws := srun ev spk h in
   announced_equiv (resync ev (fst ws) (snd ws)) (fresh ev (snd ws) (fst ws)).
 Proof.
-  intros Hok. cbv zeta. pose proof (Inv_run h ([], sinit spk) false Hok (Inv_init spk)) as V.
-  fold (srun ev spk h) in V. eapply resync_normal_form. exact V.
+  intros Hok Hf. cbv zeta. pose proof (Inv_run h ([], sinit spk) false Hok (Inv_init spk)) as V.
+  fold (srun ev spk h) in V. eapply resync_normal_form; [exact V|apply final_cfg_good; exact Hf].
 Qed.
 
 (* nothing remains announced for a service that is gone / not a LoadBalancer /
    without address / outside the pools, once it was processed *)
 Lemma nothing_for_gone_service spk h name os :
-  forallb (event_ok ev) (h ++ [ESvc name os]) = true ->
+  forallb esvc_ok (h ++ [ESvc name os]) = true ->
   plan (s_cfg (snd (srun ev spk (h ++ [ESvc name os])))) os = None ->
   let st := snd (srun ev spk (h ++ [ESvc name os])) in
   s_l2 st name = None /\ bs_ads (s_bgp st) name = None.
@@ -979,13 +987,113 @@ Proof.
   rewrite forallb_app in Hok. apply andb_true_iff in Hok. destruct Hok as [Hok1 Hok2].
   pose proof (Inv_run h ([], sinit spk) false Hok1 (Inv_init spk)) as V.
   destruct (fold_left (sstep ev) h ([], sinit spk)) as [K st] eqn:E. cbn [fst snd] in V.
-  destruct V as [B G _ _ _ _ _].
+  destruct V as [B _ _ _ _ _].
   assert (Hs : forall s, os = Some s -> svc_ok s = true).
   { intros s ->. cbn in Hok2. rewrite andb_true_r in Hok2. exact Hok2. }
-  destruct (set_balancer_spec name os st B G Hs) as [B1 [_ N1]].
+  destruct (set_balancer_spec name os st B Hs) as [B1 [_ N1]].
   assert (Est : snd (sstep ev (K, st) (ESvc name os)) = set_balancer ev name os st) by (destruct os; reflexivity).
   rewrite Est in *. unfold nf_name in N1. rewrite Hp in N1. destruct N1 as [A1 A2].
   split; [apply (k_l _ B1 name A2)|apply (k_b _ B1 name A1)].
+Qed.
+
+(* ---------------------------------------------------------------- C10 lifted to reachable states *)
+Lemma bgp_should_iff nodes p s : bgp_should ev nodes p s = true <-> c10_code me (bgp_view ev nodes p s).
+Proof.
+  unfold bgp_should. fold me. rewrite <- bgp_should_announce_iff.
+  destruct (bgp_decide me (bgp_view ev nodes p s)); cbn; split; congruence.
+Qed.
+
+(* in a normal-form state a Service has BGP advertisements iff the statement's eligibility holds *)
+Lemma announced_over_bgp_state K st name :
+  Bk st -> NF K st ->
+  (bs_ads (s_bgp st) name <> None <->
+   exists s ips p, plan (s_cfg st) (klookup K name) = Some (s, ips, p) /\ c10_code me (bgp_view ev (s_nodes st) p s)) /\
+  (forall s ips p, plan (s_cfg st) (klookup K name) = Some (s, ips, p) -> c10_code me (bgp_view ev (s_nodes st) p s) ->
+     bs_ads (s_bgp st) name = Some (make_ads me ips (pl_bgp p))).
+Proof.
+  intros B N. specialize (N name). unfold nf_name in N.
+  destruct (plan (s_cfg st) (klookup K name)) as [[[s ips] p]|].
+  - destruct N as [A1 [_ [A3 _]]]. unfold should_of in A1, A3. split.
+    + split.
+      * intros H. exists s, ips, p. split; [reflexivity|]. apply bgp_should_iff.
+        destruct (bgp_should ev (s_nodes st) p s) eqn:E; [reflexivity|]. exfalso. apply H. apply (k_b _ B name). exact A1.
+      * intros [s' [ips' [p' [[= <- <- <-] Hc]]]]. apply bgp_should_iff in Hc. rewrite (A3 Hc). discriminate.
+    + intros s' ips' p' [= <- <- <-] Hc. apply bgp_should_iff in Hc. exact (A3 Hc).
+  - destruct N as [A1 _]. split.
+    + split; [intros H; exfalso; apply H; apply (k_b _ B name A1)|intros [s [ips [p [H _]]]]; discriminate].
+    + intros s ips p H. discriminate.
+Qed.
+
+(* ... and every live session carries exactly the routes of the eligible Services that name its peer *)
+Lemma session_routes_state K st q l :
+  Bk st -> NF K st -> In q (bs_peers (s_bgp st)) -> ps_sess q = Some l ->
+  forall ad, In ad l <->
+    exists name s ips p, plan (s_cfg st) (klookup K name) = Some (s, ips, p) /\
+      c10_code me (bgp_view ev (s_nodes st) p s) /\ In ad (make_ads me ips (pl_bgp p)) /\
+      matches_peer (pc_name (ps_cfg q)) ad = true.
+Proof.
+  intros B N Hq Hl ad. destruct (k_bg _ B) as [bevs [Ib _]].
+  rewrite (i_fresh _ _ _ Ib q l Hq Hl). unfold ads_for_peer. rewrite filter_In, (all_ads_char _ _ ad Ib). split.
+  - intros [[k [l0 [Hk Hin]]] Hm].
+    destruct (announced_over_bgp_state K st k B N) as [[H1 _] H2].
+    destruct H1 as [s [ips [p [Hp Hc]]]]; [congruence|]. exists k, s, ips, p.
+    rewrite (H2 s ips p Hp Hc) in Hk. injection Hk as <-. auto.
+  - intros [k [s [ips [p [Hp [Hc [Hin Hm]]]]]]]. split; [|exact Hm].
+    destruct (announced_over_bgp_state K st k B N) as [_ H2]. exists k, (make_ads me ips (pl_bgp p)). split; [apply (H2 s ips p Hp Hc)|exact Hin].
+Qed.
+
+Lemma announced_over_bgp_iff spk h name :
+  forallb esvc_ok h = true -> stale_after ev ([], sinit spk) false h = false ->
+  let K := fst (srun ev spk h) in let st := snd (srun ev spk h) in
+  bs_ads (s_bgp st) name <> None <->
+  exists s ips p, plan (s_cfg st) (klookup K name) = Some (s, ips, p) /\ c10_code me (bgp_view ev (s_nodes st) p s).
+Proof.
+  intros Hok Hst. cbv zeta. pose proof (Inv_run h ([], sinit spk) false Hok (Inv_init spk)) as V. rewrite Hst in V.
+  fold (srun ev spk h) in V. apply (announced_over_bgp_state _ _ name (v_bk _ _ _ V) (v_nf _ _ _ V eq_refl)).
+Qed.
+
+Lemma session_routes_iff spk h q l :
+  forallb esvc_ok h = true -> stale_after ev ([], sinit spk) false h = false ->
+  let K := fst (srun ev spk h) in let st := snd (srun ev spk h) in
+  In q (bs_peers (s_bgp st)) -> ps_sess q = Some l ->
+  forall ad, In ad l <->
+    exists name s ips p, plan (s_cfg st) (klookup K name) = Some (s, ips, p) /\
+      c10_code me (bgp_view ev (s_nodes st) p s) /\ In ad (make_ads me ips (pl_bgp p)) /\
+      matches_peer (pc_name (ps_cfg q)) ad = true.
+Proof.
+  intros Hok Hst. cbv zeta. pose proof (Inv_run h ([], sinit spk) false Hok (Inv_init spk)) as V. rewrite Hst in V.
+  fold (srun ev spk h) in V. apply (session_routes_state _ _ q l (v_bk _ _ _ V) (v_nf _ _ _ V eq_refl)).
+Qed.
+
+(* ---------------------------------------------------------------- C04 lifted to reachable states *)
+(* in a normal-form state (final configuration free of F9) the announcer holds a Service iff
+   this node wins the election on the current view *)
+Lemma l2_announced_state K st name :
+  Bk st -> NF K st -> cfg_good st ->
+  (s_l2 st name <> None <->
+   exists s ips p, plan (s_cfg st) (klookup K name) = Some (s, ips, p) /\
+                   l2_should ev (s_nodes st) (s_spk st) p s ips = true).
+Proof.
+  intros B N G. specialize (N name). unfold nf_name in N. pose proof (match_of_good st (klookup K name)) as Hm.
+  destruct (plan (s_cfg st) (klookup K name)) as [[[s ips] p]|].
+  - destruct N as [_ [A2 [_ A4]]]. unfold should_of in A2, A4. split.
+    + intros H. exists s, ips, p. split; [reflexivity|].
+      destruct (l2_should ev (s_nodes st) (s_spk st) p s ips) eqn:E; [reflexivity|]. exfalso. apply H. apply (k_l _ B name). exact A2.
+    + intros [s' [ips' [p' [[= <- <- <-] Hs]]]]. destruct (A4 Hs (Hm s ips p G eq_refl Hs)) as [ents [E _]]. congruence.
+  - destruct N as [_ A2]. split; [intros H; exfalso; apply H; apply (k_l _ B name A2)|intros [s [ips [p [H _]]]]; discriminate].
+Qed.
+
+Lemma l2_announced_iff spk h name :
+  forallb esvc_ok h = true -> final_cfg_ok ev (snd (srun ev spk h)) = true ->
+  stale_after ev ([], sinit spk) false h = false ->
+  let K := fst (srun ev spk h) in let st := snd (srun ev spk h) in
+  s_l2 st name <> None <->
+  exists s ips p, plan (s_cfg st) (klookup K name) = Some (s, ips, p) /\
+                  l2_should ev (s_nodes st) (s_spk st) p s ips = true.
+Proof.
+  intros Hok Hf Hst. cbv zeta. pose proof (Inv_run h ([], sinit spk) false Hok (Inv_init spk)) as V. rewrite Hst in V.
+  fold (srun ev spk h) in V.
+  apply (l2_announced_state _ _ name (v_bk _ _ _ V) (v_nf _ _ _ V eq_refl) (final_cfg_good _ Hf)).
 Qed.
 
 (* SetConfig refusal: a configuration that orphans a recorded address changes nothing *)
@@ -994,3 +1102,42 @@ Lemma setconfig_refusal c st :
 Proof. unfold set_config. destruct (existsb _ _); cbn; [reflexivity|discriminate]. Qed.
 
 End S.
+
+(* ---------------------------------------------------------------- several speakers sharing one view *)
+(* Speakers on different nodes (same ignore flag and hash) whose controllers are in normal form for the
+   same cluster K and share configuration, nodes and speaker list: a Service that the election can
+   give to somebody is held by the announcer of exactly one of them. *)
+Lemma one_l2_announcer (evs : N -> env) (sts : N -> sstate) K name s x r p :
+  (forall n, en_me (evs n) = n /\ en_ignore (evs n) = en_ignore (evs 0) /\ en_hash (evs n) = en_hash (evs 0)) ->
+  (forall n, Bk (evs n) (sts n) /\ NF (evs n) K (sts n) /\ cfg_good (evs n) (sts n) /\
+             s_cfg (sts n) = s_cfg (sts 0) /\ s_nodes (sts n) = s_nodes (sts 0) /\ s_spk (sts n) = s_spk (sts 0)) ->
+  plan (s_cfg (sts 0)) (klookup K name) = Some (s, x :: r, p) ->
+  (exists n, eligible (elect_view (evs 0) (s_nodes (sts 0)) (s_spk (sts 0)) p s) n) ->
+  exists w, s_l2 (sts w) name <> None /\ forall n, s_l2 (sts n) name <> None -> n = w.
+Proof.
+  intros He Hs Hp Hel.
+  set (v := elect_view (evs 0) (s_nodes (sts 0)) (s_spk (sts 0)) p s) in *.
+  assert (Hiff : forall n, s_l2 (sts n) name <> None <-> decide (en_hash (evs 0) x) v n = true).
+  { intros n. destruct (Hs n) as [B [Nf [G [Ec [En Es]]]]]. destruct (He n) as [Hme [Hig Hh]].
+    rewrite (l2_announced_state (evs n) K (sts n) name B Nf G). rewrite Ec, En, Es, Hp. split.
+    - intros [s' [ips' [p' [[= <- <- <-] Hd]]]]. unfold l2_should in Hd. rewrite Hme, Hh in Hd.
+      unfold elect_view in Hd. rewrite Hig in Hd. exact Hd.
+    - intros Hd. exists s, (x :: r), p. split; [reflexivity|]. unfold l2_should. rewrite Hme, Hh.
+      unfold elect_view. rewrite Hig. exact Hd. }
+  destruct (exactly_one (en_hash (evs 0) x) v Hel) as [w [Hw Hu]].
+  exists w. split; [apply Hiff; exact Hw|]. intros n Hn. apply Hu. apply Hiff. exact Hn.
+Qed.
+
+Lemma no_l2_announcer_without_eligible (evs : N -> env) (sts : N -> sstate) K name s x r p n :
+  en_me (evs n) = n -> Bk (evs n) (sts n) -> NF (evs n) K (sts n) -> cfg_good (evs n) (sts n) ->
+  plan (s_cfg (sts n)) (klookup K name) = Some (s, x :: r, p) ->
+  (forall m, ~ eligible (elect_view (evs n) (s_nodes (sts n)) (s_spk (sts n)) p s) m) ->
+  s_l2 (sts n) name = None.
+Proof.
+  intros Hme B Nf G Hp Hno. destruct (s_l2 (sts n) name) eqn:E; [|reflexivity]. exfalso.
+  assert (H : s_l2 (sts n) name <> None) by congruence.
+  apply (l2_announced_state (evs n) K (sts n) name B Nf G) in H. destruct H as [s' [ips' [p' [Hp' Hd]]]].
+  rewrite Hp in Hp'. injection Hp' as <- <- <-. unfold l2_should in Hd.
+  pose proof (none_when_no_eligible (en_hash (evs n) x) _ Hno (en_me (evs n))) as Hf. congruence.
+Qed.
+
